@@ -84,15 +84,60 @@ impl SocketHandler for FakeSock {
     fn write_error(&self) {}
 }
 
-/// a connected loopback pair: (mio side, std side, address the mio side connected from, listener address)
-fn pair(v6: bool) -> (MioTcpStream, std::net::TcpStream, SocketAddr, SocketAddr) {
-    let l = std::net::TcpListener::bind(if v6 { "[::1]:0" } else { "127.0.0.1:0" }).expect("bind");
-    let la = l.local_addr().unwrap();
-    let c = std::net::TcpStream::connect(la).expect("connect");
-    let (a, _) = l.accept().expect("accept");
-    let ca = c.local_addr().unwrap();
-    c.set_nonblocking(true).unwrap();
-    (MioTcpStream::from_std(c), a, ca, la)
+/// Sockets of the in-process rigs use **no TCP port** wherever the code under
+/// test does not look at addresses: an `AF_UNIX` stream socketpair wrapped as a
+/// `mio::net::TcpStream` (the states only `read`/`write` it, or never touch it
+/// at all: the scripted `FakeSock` answers instead). Thousands of cases
+/// therefore leave no TIME_WAIT entries and cannot collide with other rigs.
+fn unix_pair() -> std::io::Result<(MioTcpStream, std::os::unix::net::UnixStream)> {
+    use std::os::unix::io::{FromRawFd, IntoRawFd};
+    let (a, b) = std::os::unix::net::UnixStream::pair()?;
+    a.set_nonblocking(true)?;
+    let fd = a.into_raw_fd();
+    // SAFETY: `fd` is a freshly created, owned stream socket
+    Ok((unsafe { MioTcpStream::from_raw_fd(fd) }, b))
+}
+
+/// a set-up step is retried a few times before the case is declared inconclusive
+fn retry<T>(mut f: impl FnMut() -> std::io::Result<T>) -> Option<T> {
+    for attempt in 0..4u32 {
+        if let Ok(v) = f() {
+            return Some(v);
+        }
+        std::thread::sleep(Duration::from_millis(20 << attempt));
+    }
+    None
+}
+
+thread_local! {
+    /// one listening socket per family and thread (port 0, address read back), reused by every
+    /// send-mode case: a case only costs the ephemeral port of its client connection
+    static FRONT_LISTENERS: RefCell<[Option<std::net::TcpListener>; 2]> = const { RefCell::new([None, None]) };
+}
+
+/// the front socket as sozu holds it in send mode: the accepted side of a real
+/// TCP connection (peer = client, local = listener), plus the client end and both addresses
+fn tcp_front(v6: bool) -> Option<(MioTcpStream, std::net::TcpStream, SocketAddr, SocketAddr)> {
+    retry(|| {
+        FRONT_LISTENERS.with(|ls| {
+            let mut ls = ls.borrow_mut();
+            let slot = &mut ls[v6 as usize];
+            if slot.is_none() {
+                *slot = Some(std::net::TcpListener::bind(if v6 { "[::1]:0" } else { "127.0.0.1:0" })?);
+            }
+            let l = slot.as_ref().unwrap();
+            let la = l.local_addr()?;
+            let c = std::net::TcpStream::connect_timeout(&la, Duration::from_secs(2))?;
+            let ca = c.local_addr()?;
+            // accept *our* connection (nothing else connects to this private listener)
+            let (a, peer) = l.accept()?;
+            if peer != ca {
+                return Err(std::io::Error::other("foreign connection on the private listener"));
+            }
+            a.set_nonblocking(true)?;
+            Ok((MioTcpStream::from_std(a), c, ca, la))
+        })
+    })
 }
 
 // ------------------------------------------------------------- canonical ---
@@ -597,7 +642,13 @@ impl Area for PP {
                 }
             }
             _ => {
-                ops.push(format!("send {}", if rng.chance(1, 2) { "v4" } else { "v6" }));
+                // send mode has no input besides the address family: one case in five of this arm
+                if rng.chance(1, 5) {
+                    ops.push(format!("send {}", if rng.chance(1, 2) { "v4" } else { "v6" }));
+                } else {
+                    let n = rng.below(40) as usize;
+                    ops.push(format!("parse {}", hex(&rng.bytes(n))));
+                }
             }
         }
         ops
@@ -609,7 +660,14 @@ impl Area for PP {
         let mut wt = WinTrack { stage: 28, index: 0 };
         let mut r: Option<RelayRig> = None;
         let mut metrics = SessionMetrics::new(None);
+        // a set-up step (socket creation) that still fails after retries makes the rest of the
+        // case inconclusive: counted in the distribution, never a failure by itself
+        let mut inconclusive = false;
         for op in ops {
+            if inconclusive {
+                run.out.push("inconclusive".into());
+                continue;
+            }
             let w: Vec<&str> = op.split_whitespace().collect();
             let line = match w.as_slice() {
                 ["new"] => "ok".to_string(),
@@ -692,7 +750,12 @@ impl Area for PP {
                     s
                 }
                 ["xnew"] => {
-                    let (stream, _peer, _, _) = pair(false);
+                    let Some((stream, _peer)) = retry(unix_pair) else {
+                        inconclusive = true;
+                        run.tags.push("inconclusive".into());
+                        run.out.push("inconclusive".into());
+                        continue;
+                    };
                     let script = Rc::new(RefCell::new(Script::default()));
                     let m = ExpectProxyProtocol::new(
                         TimeoutContainer::new(Duration::from_secs(60), Token(7)),
@@ -776,7 +839,12 @@ impl Area for PP {
                 },
                 ["rnew", cap] => match cap.parse::<usize>() {
                     Ok(cap) => {
-                        let (stream, _peer, _, _) = pair(false);
+                        let Some((stream, _peer)) = retry(unix_pair) else {
+                            inconclusive = true;
+                            run.tags.push("inconclusive".into());
+                            run.out.push("inconclusive".into());
+                            continue;
+                        };
                         let script = Rc::new(RefCell::new(Script::default()));
                         let mut pool = Pool::with_capacity(1, 1, cap);
                         let buf = pool.checkout().expect("checkout");
@@ -816,17 +884,12 @@ impl Area for PP {
                 },
                 ["send", fam] => {
                     let v6 = *fam == "v6";
-                    let (front, _client, client_addr, listener_addr) = {
-                        // front socket as sozu holds it: accepted side → peer = client, local = listener
-                        let l = std::net::TcpListener::bind(if v6 { "[::1]:0" } else { "127.0.0.1:0" }).expect("bind");
-                        let la = l.local_addr().unwrap();
-                        let c = std::net::TcpStream::connect(la).expect("connect");
-                        let (a, _) = l.accept().expect("accept");
-                        a.set_nonblocking(true).unwrap();
-                        let ca = c.local_addr().unwrap();
-                        (MioTcpStream::from_std(a), c, ca, la)
+                    let (Some((front, _client, client_addr, listener_addr)), Some((back, mut backend_peer))) = (tcp_front(v6), retry(unix_pair)) else {
+                        inconclusive = true;
+                        run.tags.push("inconclusive".into());
+                        run.out.push("inconclusive".into());
+                        continue;
                     };
-                    let (back, mut backend_peer, _, _) = pair(v6);
                     let mut m = SendProxyProtocol::new(front, Token(7), Ulid::generate(), Some(back));
                     let mut out = m.back_writable(&mut metrics);
                     let mut calls = 1;
@@ -877,14 +940,40 @@ impl Area for PP {
         run
     }
 
+    fn lines_agree(&self, impl_line: &str, model_line: &str) -> bool {
+        impl_line == model_line || impl_line == "inconclusive"
+    }
+
     fn classify_mismatch(&self, ops: &[String], _i: &[String], _m: &[String]) -> String {
         let k = ops.iter().find_map(|o| o.split(' ').next().filter(|w| *w != "new")).unwrap_or("?");
         format!("model-mismatch:{k}")
     }
 }
 
+/// more than 2 % inconclusive cases = the run says nothing: that is a failure of the harness run
+fn inconclusive_gate(args: &Args, rc: i32) -> i32 {
+    if args.out.is_empty() || args.replay.is_some() {
+        return rc;
+    }
+    let Ok(txt) = std::fs::read_to_string(&args.out) else { return rc };
+    let Ok(mut v) = serde_json::from_str::<serde_json::Value>(&txt) else { return rc };
+    let n = v["distribution"]["inconclusive"].as_u64().unwrap_or(0);
+    let ev = v["evaluations"].as_u64().unwrap_or(0).max(1);
+    if n * 50 > ev {
+        if let Some(f) = v["failures"].as_array_mut() {
+            f.push(serde_json::json!({"kind": "oracle", "class": "harness-inconclusive", "case": -1, "ops": [], "impl_out": [], "model_out": [],
+                "detail": format!("{n} of {ev} cases stayed inconclusive after set-up retries (> 2 %)")}));
+        }
+        let _ = std::fs::write(&args.out, serde_json::to_string_pretty(&v).unwrap());
+        println!("FAIL harness-inconclusive {n} of {ev}");
+        return 1;
+    }
+    rc
+}
+
 fn main() {
     std::panic::set_hook(Box::new(|_| {}));
     let args = parse_args();
-    std::process::exit(run_area(&PP, &args));
+    let rc = run_area(&PP, &args);
+    std::process::exit(inconclusive_gate(&args, rc));
 }
